@@ -94,6 +94,10 @@ def Res.chs : Res → List Change
 def identOf (es : List Entry) : Option (Nat × Nat × Option Nat) :=
   es.head?.map fun e => (e.src.id, e.attr.id, e.nh)
 
+def Op.isRestaleLlgr : Op → Bool
+  | .restaleLlgr .. => true
+  | _ => false
+
 def Op.isEndDeferral (f : Fam) : Op → Bool
   | .endDeferral f' => f' == f
   | _ => false
@@ -107,8 +111,10 @@ structure StepFacts (t : Table) (op : Op) (t' : Table) (r : Res) : Prop where
   /-- ... and the identifier of that destination (the one it had, if it is gone) -/
   idNew : ∀ ch ∈ r.chs, t'.destId ch.fam ch.net = some ch.destId ∨
             (t'.destId ch.fam ch.net = none ∧ t.destId ch.fam ch.net = some ch.destId)
-  /-- at most one notification per prefix -/
-  nets : (r.chs.map fun ch => (ch.fam, ch.net)).Nodup
+  /-- at most one notification per prefix, except for `restale_llgr`, which reports every re-marked
+      usable path of a prefix in a notification of its own (all carrying the same paths and id, see
+      `exact` / `idNew`) -/
+  nets : op.isRestaleLlgr = false → (r.chs.map fun ch => (ch.fam, ch.net)).Nodup
   /-- a destination that survives keeps its identifier -/
   idStable : ∀ f n i, t.destId f n = some i → t'.destId f n = some i ∨ t'.destId f n = none
   /-- whenever the exportable paths of a prefix change, an add-path consumer is told -/
